@@ -17,7 +17,18 @@ import YaegiVerif.Model.Unwind
                                                                  the extractor checks the exact shape of both
      3081633          (no fact changes)                          genFunctionWrapper binds the method receiver when the wrapper is created
                                                                  (the receiver of `defer t.M()` is the one of the defer statement now)
-   Fingerprints changed by the last three: `runDeferred` (8600fa9), `call: defer branch`, `callBin: defer clause` (eef6ac5),
+     d26dd9e          closureLocksDefiner true → false           getFunc's wrapper no longer touches the defining frame after a call
+                                                                 (no `f.mutex.Lock(); getFrame(f, l).data[i] = o; f.mutex.Unlock()`):
+                                                                 the dead-lock of F06-2 is impossible whatever runCfg does with the lock
+     4a41b28, 1578873 (no fact changes)                          per-call frames are made by newCallFrame(anc, length) — newFrame(anc, …)
+                                                                 with run id and done of the root frame; the ancestor is the frame given
+                                                                 (getFunc: still the clone, closureAncIsClone stays true; genFunctionWrapper:
+                                                                 still the deferring frame); the extractor checks newCallFrame's shape
+     32d4f06          (no fact changes)                          genFunctionWrapper: receivers of interface-method wrappers bound at each call
+     4a41b28          (no fact changes)                          Execute defers a second function refreshing the root frame's run id
+   Fingerprints changed by these: `getFunc` (d26dd9e, 4a41b28), `genFunctionWrapper` (32d4f06, 4a41b28), `Interpreter.Execute`
+   (4a41b28); `newCallFrame` is a new row.
+   Fingerprints changed by 8600fa9 / eef6ac5 / 3081633: `runDeferred` (8600fa9), `call: defer branch`, `callBin: defer clause` (eef6ac5),
    `genFunctionWrapper` (3081633); `callVariadic` and `deferCallSlice` are new rows.
    Fingerprints changed by the four repairs of round 2: `_panic` (F06-3, F06-4), `runCfg: deferred function` (F07, F06-2);
    `runDeferred` and `getFunc` are new entries of the table. -/
@@ -41,7 +52,7 @@ def facts : UnwindFacts :=
     panicBoxed := false,
     panicDeferrable := true,
     closureAncIsClone := true,
-    closureLocksDefiner := true,
+    closureLocksDefiner := false,
     executeRecovers := true,
     executeCarriesValue := true }
 
@@ -52,21 +63,23 @@ def factsRound1 : UnwindFacts :=
     exitSteps := [.lock, .assignRecovered, .runDeferred, .ifRecovered, .unlock],
     deferredProtected := false,
     panicBoxed := true,
-    panicDeferrable := false }
+    panicDeferrable := false,
+    closureLocksDefiner := true }
 
 /-- fingerprints (extract/cmd/c06) of the functions and blocks Model/Unwind.lean was transcribed from -/
 def sourceHashes : List (String × String) :=
   [("_recover", "8cc0949f8735f125"),
    ("_panic", "479ec3cbe4f915a7"),
    ("genBuiltinDeferWrapper", "a752ad4945ff5fce"),
-   ("genFunctionWrapper", "d3025d79ab731dcf"),
+   ("genFunctionWrapper", "033ce6ccd17871ac"),
    ("copyDeferArg", "d8586ba1ea695e54"),
    ("runDeferred", "3744dc350d781dfc"),
    ("callVariadic", "a136ff7434f20d7e"),
    ("deferCallSlice", "8195ae3a302030b3"),
-   ("getFunc", "e1777a5459c1a52e"),
-   ("Interpreter.Execute", "eaf1129b747c09aa"),
+   ("getFunc", "767f1bf470b0d0fd"),
+   ("Interpreter.Execute", "19fb5462ea693d28"),
    ("newFrame", "da1db819d5067f56"),
+   ("newCallFrame", "43aa5e7f13021a5b"),
    ("frame.clone", "ccd71f62c6588b0a"),
    ("runCfg: deferred function", "61a77e83b081a972"),
    ("call: defer branch", "e4bca2242cb1b6ba"),
